@@ -1327,6 +1327,9 @@ fn child_deep(level: &str, n: usize, stack_kib: usize, ops: &str) {
                 }
                 say(op);
             }
+            // the implicit drop at the end of the thread would recurse too: only the explicit `drop` op measures it
+            std::mem::forget(tree);
+            std::mem::forget(copy);
         } else {
             let config = RouterConfig::default();
             let mut router = Router::<Rule>::from_config(config.clone());
@@ -1363,6 +1366,8 @@ fn child_deep(level: &str, n: usize, stack_kib: usize, ops: &str) {
                 }
                 say(op);
             }
+            std::mem::forget(router);
+            std::mem::forget(copy);
         }
         say("done");
     };
